@@ -23,10 +23,12 @@ func pth(tokens ...string) []seg {
 	return out
 }
 
-func decl(p []seg) stmt              { return stmt{K: "decl", Path: p} }
-func declV(p []seg, v string) stmt   { return stmt{K: "decl", Path: p, Val: v} }
-func declB(p []seg, b ...stmt) stmt  { return stmt{K: "decl", Path: p, HasBody: true, Body: b} }
-func declI(p []seg, b ...stmt) stmt  { return stmt{K: "decl", Path: p, HasBody: true, Body: b, Inline: true} }
+func decl(p []seg) stmt             { return stmt{K: "decl", Path: p} }
+func declV(p []seg, v string) stmt  { return stmt{K: "decl", Path: p, Val: v} }
+func declB(p []seg, b ...stmt) stmt { return stmt{K: "decl", Path: p, HasBody: true, Body: b} }
+func declI(p []seg, b ...stmt) stmt {
+	return stmt{K: "decl", Path: p, HasBody: true, Body: b, Inline: true}
+}
 func attr(p []seg, t, v string) stmt { return stmt{K: "attr", Path: p, Tail: t, Val: v} }
 func edge(arrow string, ends ...[]seg) stmt {
 	st := stmt{K: "edge", Ends: ends}
@@ -38,10 +40,12 @@ func edge(arrow string, ends ...[]seg) stmt {
 func eref(a []seg, arrow string, b []seg, idx int, tail, val string) stmt {
 	return stmt{K: "eref", Ends: [][]seg{a, b}, Arrows: []string{arrow}, Idx: idx, Tail: tail, Val: val}
 }
-func brd(name string, b ...stmt) boardM       { return boardM{Name: sg(name), Body: b} }
-func brdI(name string, b ...stmt) boardM      { return boardM{Name: sg(name), Body: b, Inline: true} }
-func boards(kind string, bs ...boardM) stmt   { return stmt{K: "boards", BKind: kind, Boards: bs} }
-func boardsI(kind string, bs ...boardM) stmt  { return stmt{K: "boards", BKind: kind, Boards: bs, Inline: true} }
+func brd(name string, b ...stmt) boardM     { return boardM{Name: sg(name), Body: b} }
+func brdI(name string, b ...stmt) boardM    { return boardM{Name: sg(name), Body: b, Inline: true} }
+func boards(kind string, bs ...boardM) stmt { return stmt{K: "boards", BKind: kind, Boards: bs} }
+func boardsI(kind string, bs ...boardM) stmt {
+	return stmt{K: "boards", BKind: kind, Boards: bs, Inline: true}
+}
 func one(class string, body ...stmt) c42Case {
 	return c42Case{Class: class, Kind: "core", Files: []fileM{{Name: "index", Body: body}}}
 }
